@@ -7,10 +7,11 @@ import glob
 for f in sorted(glob.glob(os.path.join(V, "tools", "claims.d", "*.json"))):
     claims.update(json.load(open(f)))
 props = [json.loads(l)["id"] for l in open(os.path.join(V, "properties.jsonl"))]
+ready = set(open(os.path.join(V, "tools", "ready.txt")).read().split())
 checks, na = [], []
 for pid in props:
     c = claims.get(pid)
-    if c and c.get("claimed"):
+    if c and c.get("claimed") and pid in ready:
         checks.append({
             "property_id": pid,
             "quick_cmd": f"./check {pid} --tier quick",
